@@ -426,6 +426,18 @@ pub mod time {
         }
     }
 
+    impl std::ops::AddAssign<Duration> for Instant {
+        fn add_assign(&mut self, d: Duration) {
+            *self = *self + d;
+        }
+    }
+
+    impl std::ops::SubAssign<Duration> for Instant {
+        fn sub_assign(&mut self, d: Duration) {
+            *self = *self - d;
+        }
+    }
+
     impl std::ops::Sub<Instant> for Instant {
         type Output = Duration;
         fn sub(self, o: Instant) -> Duration {
